@@ -14,6 +14,8 @@ import vlib
 
 SIZES = [0, 1, 2, 16383, 16384, 16385, 32768]
 READS = [0, 1, 2, 16384, 32768]
+BURSTS = [1, 16, 32, 33, 40]     # key updates in a row from one side (the library tolerates 32 NON-advancing records)
+ROUNDS = [8, 40]                 # upload rounds with a KeyUpdate of the receiver after every write
 
 
 def pick(pool, rng, k):
@@ -38,6 +40,13 @@ def run(ctx):
                       # one worker: with a VIEW the path that represents a state depends on the exploration order,
                       # so only a single-worker BFS makes the emitted scenarios (and the run) a function of the seed
                       workers=1 if ctx.quick else 8, timeout=1700)
+    # second, shallow exploration (TLS 1.3 only) with the macro steps "k key updates in a row" and "upload during which only
+    # the receiver rekeys" (kept out of the main run: their 40-record states would multiply its size by ten)
+    _, burst = rl.mc(ctx, "Record_MC_c25_burst", classes=["tls13"], sizes=[1, 16385], reads=[1, 32768],
+                     maxops=2 if ctx.quick else 3, maxw=2, maxku=1, maxmut=1, maxclose=0,
+                     bursts=BURSTS, uprounds=ROUNDS, upsizes=[1, 16385], maxburst=1, workers=1 if ctx.quick else 8, timeout=900)
+    burst = [s for s in burst if any(o["op"] in ("KUB", "UPL") for o in s["ops"])]
+    scns = scns + burst
     deep = []
     if not ctx.quick:
         # random deep paths beyond the exhaustive bound
@@ -47,7 +56,7 @@ def run(ctx):
     for s in scns + deep:
         by_class[s["class"]].append(s["ops"])
     opkinds = {o["op"] for s in scns for o in s["ops"]}
-    if not {"W", "R", "KU", "M", "C"} <= opkinds or any(not by_class[c] for c in classes):
+    if not {"W", "R", "KU", "M", "C", "KUB", "UPL"} <= opkinds or any(not by_class[c] for c in classes):
         raise vlib.Machinery("Record_MC: vacuous exploration (operations %s, classes %s)" % (sorted(opkinds), {c: len(v) for c, v in by_class.items()}))
     if not any(o["op"] == "KU" and o["req"] for ops in by_class["tls13"] for o in ops):
         raise vlib.Machinery("Record_MC: no key update with update_requested explored")
@@ -61,7 +70,15 @@ def run(ctx):
     jobs, mutctr, n = [], [0], 0
     for c in cells:
         # only TLS 1.3 has key updates and there are few TLS 1.3 suites: give those cells three times the scenarios
-        for ops in pick(by_class[c["class"]], rng, per * 3 if c["class"] == "tls13" else per):
+        picks = pick(by_class[c["class"]], rng, per * 3 if c["class"] == "tls13" else per)
+        if c["class"] == "tls13":
+            # every burst length and every upload length on every TLS 1.3 cell
+            pool = by_class["tls13"]
+            for k in BURSTS:
+                picks += rng.sample([ops for ops in pool if any(o["op"] == "KUB" and o["k"] == k for o in ops)], 1 if ctx.quick else 4)
+            for k in ROUNDS:
+                picks += rng.sample([ops for ops in pool if any(o["op"] == "UPL" and o["k"] == k for o in ops)], 1 if ctx.quick else 4)
+        for ops in picks:
             n += 1
             jobs.append(rl.job(n, "hs", c, rl.concretise(ops, rng, mutctr), rng, dyn=rng.random() < 0.6))
     out = rl.judge(ctx, jobs, "c25", 8 if ctx.quick else 16,
@@ -83,6 +100,19 @@ def run(ctx):
         rl.need(out["stats"], ["Init.hs", "Write", "Write.multi", "Write.split", "Write.zero", "Read.data", "Read.partial", "Read.zero",
                                "Read.timeout", "Read.eof", "Read.error", "Read.alert", "Read.sticky", "Read.kuresp", "KeyUpdate", "Close",
                                "Mutate", "Nonce"], "C25")
+    if not out["rej"]:
+        # long runs of key updates without application data from that side must really have been read through
+        longest = 0
+        for evs in out["by"].values():
+            run = {"c": 0, "s": 0}
+            for e in evs:
+                if e["ev"] == "KeyUpdate" and e["err"] == "":
+                    run[e["x"]] += 1
+                    longest = max(longest, run[e["x"]])
+                elif e["ev"] == "Write" and e["ret"] > 0:
+                    run[e["x"]] = 0
+        if longest < 40:
+            raise vlib.Machinery("C25: longest run of key updates of one side without data in between was %d" % longest)
     muts = {}
     for evs in out["by"].values():
         for e in evs:
